@@ -67,6 +67,7 @@ func c03(c *core.Check) {
 	c.Explain = "Structural necessary conditions of the cascade order, decided on the type-checked source: the origin/importance table folded over its finite domain, weight.Less and Specificity.Less folded over every ordering of the compared components, every write into a cascaded style guarded by that comparison, the style-attribute weight above every selector weight, sheet order and origins, and media-filtered rules reached only through a true media test. Does not decide that selectors match (C05) nor source order inside one sheet."
 	rArgs := c.Rule("R8", "no call passes two same-typed arguments under each other's parameter names (swapped arguments): every pair of arguments named after the callee's parameters is aligned with them", 4)
 	argNameRule(c, rArgs, "html/tree", nil, 6)
+	c03Nesting(c)
 	c.Assume = []string{"specificity components stay below 2^30", "go/ssa lowering of the analysed functions is faithful"}
 
 	// ---- R1 precedence table
@@ -926,4 +927,81 @@ func c03Media(c *core.Check, r *core.Rule) {
 		r.Cond(ok2 && len(atoms) > 0, "matcher append only for rules whose selector parsed", p.Pos(call.Pos()),
 			"append(*matcher, …) is reachable only with a nil error from PreprocessDeclarationsPrelude", "a rule with an invalid selector can reach the matcher")
 	})
+}
+
+// c03Nesting: nested rules (CSS Nesting) as preprocessed by validation.PreprocessDeclarationsPrelude.
+func c03Nesting(c *core.Check) {
+	p := c.Prog
+	r := c.Rule("R9", "nested rules: every selector of a nested rule's list is made relative to the parent on its own (the parent is inserted inside a loop over the comma-separated parts of the nested prelude), and the rule's own declarations are ordered before those of its nested rules (the returned list starts with them)", 2)
+	fn := p.Fn("css/validation", "PreprocessDeclarationsPrelude")
+	if fn == nil {
+		r.Anchor("css/validation.PreprocessDeclarationsPrelude")
+		return
+	}
+	// (a) the recursive call receives a prelude assembled in a loop over SplitOnComma(declaration.Prelude)
+	var split *ssa.Call
+	core.Instrs(fn, func(in ssa.Instruction) {
+		if call, ok := in.(*ssa.Call); ok && call.Call.StaticCallee() != nil && call.Call.StaticCallee().Name() == "SplitOnComma" {
+			split = call
+		}
+	})
+	perPart := false
+	if split != nil {
+		// the parent token `is` is appended in a loop ranging over the result of the split
+		for _, l := range core.Loops(fn) {
+			ranges := false
+			for _, in := range l.Header.Instrs {
+				if cmp, ok := in.(*ssa.BinOp); ok && cmp.Op == token.LSS {
+					if lc, ok := cmp.Y.(*ssa.Call); ok {
+						if bi, ok := lc.Call.Value.(*ssa.Builtin); ok && bi.Name() == "len" && lc.Call.Args[0] == ssa.Value(split) {
+							ranges = true
+						}
+					}
+				}
+			}
+			if !ranges {
+				continue
+			}
+			for b := range l.Blocks {
+				for _, in := range b.Instrs {
+					if call, ok := in.(*ssa.Call); ok {
+						if bi, ok := call.Call.Value.(*ssa.Builtin); ok && bi.Name() == "append" {
+							for _, op := range core.AppendOperands(call) {
+								if core.DerivesFrom(op, func(v ssa.Value) bool {
+									c2, ok := v.(*ssa.Call)
+									return ok && c2.Call.StaticCallee() != nil && c2.Call.StaticCallee().Name() == "NewFunctionBlock"
+								}) {
+									perPart = true
+								}
+							}
+						}
+					}
+				}
+			}
+		}
+	}
+	r.Cond(perPart, "PreprocessDeclarationsPrelude | parent inserted per selector of the nested list", p.Pos(fn.Pos()), "the :is(parent) token is appended inside the loop over SplitOnComma(nested prelude)", "the parent is not inserted for each comma-separated selector of a nested rule: `div { p, span {…} }` applies to every span")
+	// (b) the returned list starts with the rule's own declarations
+	ownFirst := false
+	core.Instrs(fn, func(in ssa.Instruction) {
+		ret, ok := in.(*ssa.Return)
+		if !ok || len(ret.Results) != 2 {
+			return
+		}
+		call, ok := ret.Results[0].(*ssa.Call)
+		if !ok {
+			return
+		}
+		bi, ok := call.Call.Value.(*ssa.Builtin)
+		if !ok || bi.Name() != "append" {
+			return
+		}
+		// first operand: the literal holding {selectors, ownDecls}; spread operand: the nested rules' list
+		if sl, ok := call.Call.Args[0].(*ssa.Slice); ok {
+			if _, isAlloc := sl.X.(*ssa.Alloc); isAlloc {
+				ownFirst = true
+			}
+		}
+	})
+	r.Cond(ownFirst, "PreprocessDeclarationsPrelude | own declarations before nested rules", p.Pos(fn.Pos()), "the result is append([]{own declarations}, nested…)", "the rule's own declarations are placed after those of its nested rules: at equal specificity the parent wins over a later nested rule")
 }
